@@ -498,6 +498,39 @@ theorem run_pushes : ∀ (vs : List Bytes) (fr : Frame) (sh : Shared) (rest' : B
     simpa [List.reverse_cons, List.append_assoc] using h
 
 
+/-- `OP_SWAP 1 2`: exchanges the second and third items -/
+theorem run_swap12 (fr : Frame) (sh : Shared) (rest' : Bytes) (a b c : Bytes) (st : List Bytes) (r : Res)
+    (hrest : fr.rest = SWAP 1 2 ++ rest') (hcap : fr.len0 < fr.cap) (hr : sh.returned = false)
+    (hs : sh.stack = a :: b :: c :: st)
+    (ha : a.length ≤ cfg.lim.maxItemSize) (hb : b.length ≤ cfg.lim.maxItemSize) (hc : c.length ≤ cfg.lim.maxItemSize)
+    (hroom : st.length + 2 < cfg.lim.maxItems)
+    (h : TSteps (instrTable H C cfg) cfg.lim { fr with rest := rest' } { sh with stack := a :: c :: b :: st } r) :
+    TSteps (instrTable H C cfg) cfg.lim fr sh r := by
+  refine run_instr fr _ sh _ 52 (1 :: 2 :: rest') r (by simpa [SWAP, opc] using hrest) hcap hr ?_ h
+  show Steps _ _ (opSwap .done) _ _ _
+  unfold opSwap readU1
+  nstep Steps.read (by simp) ?_
+  simp only [List.take_succ_cons, List.take_zero, List.drop_succ_cons, List.drop_zero, show natOfBytesBE [(1 : UInt8)] = 1 by decide]
+  nstep Steps.read (by simp) ?_
+  simp only [List.take_succ_cons, List.take_zero, List.drop_succ_cons, List.drop_zero, show natOfBytesBE [(2 : UInt8)] = 2 by decide]
+  unfold swapCore
+  simp only [show (1 : Nat) ≠ 2 by decide, ↓reduceIte]
+  nstep Steps.depth ?_
+  rw [hs]
+  simp only [List.length_cons]
+  rw [if_pos (by simp)]
+  simp only [popN]
+  nstep Steps.pop a (b :: c :: st) hs ?_
+  nstep Steps.pop b (c :: st) rfl ?_
+  nstep Steps.pop c st rfl ?_
+  simp only [swapList, List.getElem?_cons_succ, List.getElem?_cons_zero, List.set_cons_succ, List.set_cons_zero,
+    List.reverse_cons, List.reverse_nil, List.nil_append, List.cons_append, pushAll]
+  nstep Steps.push hb (by simp; omega) ?_
+  nstep Steps.push hc (by simp; omega) ?_
+  nstep Steps.push ha (by simp; omega) ?_
+  exact Steps.done _ _
+
+
 /-! ### outcomes -/
 /-- what a run amounts to for the verdict: the final stack, or the error -/
 def Res.summary : Res → Except Err (List Bytes)
